@@ -26,6 +26,7 @@ type Stats struct {
 	runtimePanics int
 	branchQueries int
 	unknownBranch int
+	summaries     int
 }
 
 type nondet struct {
@@ -81,6 +82,8 @@ type Exec struct {
 	steps     int64
 	lastRecovered *goPanic
 	effects   map[string]Value // harness scratch
+	local     *localCtx
+	sumCache  map[*ssa.Function]bool
 
 	// config
 	maxSteps       int64
@@ -88,6 +91,7 @@ type Exec struct {
 	maxIte         int
 	maxEnum        int
 	mulAbstraction bool
+	fpAbstraction  bool
 
 	// accumulated over paths (per worker; merged at the end)
 	stats     Stats
@@ -115,7 +119,7 @@ func newExec(sh *Shared, h *Harness, solverBin string, timeoutMs int, logPath st
 	if e.unwind == 0 {
 		e.unwind = 16
 	}
-	e.maxIte = 64
+	e.maxIte = 300
 	e.maxEnum = h.MaxEnum
 	if e.maxEnum == 0 {
 		e.maxEnum = 64
@@ -139,6 +143,9 @@ func (e *Exec) site(id string) *siteStat {
 // path condition / solver
 
 func (e *Exec) addPC(c *Term) {
+	if e.local != nil {
+		panic(localFail{"assume in summarised function"})
+	}
 	if c.konst {
 		if c.c == 0 {
 			panic(pathEnd{kind: "infeasible"})
@@ -193,6 +200,9 @@ func (e *Exec) branch(c *Term) bool {
 	if n := e.not(c); e.knownTrue[n.s] {
 		return false
 	}
+	if e.local != nil {
+		return e.localBranch(c)
+	}
 	d := e.decide(func() []uint64 {
 		var alts []uint64
 		e.stats.branchQueries++
@@ -228,6 +238,9 @@ func (e *Exec) concretize(t *Term, what string) uint64 {
 	if v, ok := e.known[t.s]; ok {
 		return v
 	}
+	if e.local != nil {
+		panic(localFail{"concretize in summarised function"})
+	}
 	d := e.decide(func() []uint64 {
 		var vals []uint64
 		s := e.solver
@@ -252,10 +265,14 @@ func (e *Exec) concretize(t *Term, what string) uint64 {
 				e.abort("concretize: solver unknown for " + what)
 			}
 			m := s.getValues([]string{t.s})
-			v, ok := parseBV(m[t.s])
+			var v uint64
+			ok := false
+			for _, mv := range m {
+				v, ok = parseBV(mv)
+			}
 			if !ok {
 				s.send("(pop 1)")
-				e.abort("concretize: cannot parse model value " + m[t.s])
+				e.abort("concretize: cannot parse model value for " + what)
 			}
 			vals = append(vals, v)
 			if len(vals) > e.maxEnum {
@@ -300,6 +317,9 @@ func (e *Exec) assertObligation(id string, ok *Term, what string) {
 
 // assertK: as assertObligation but failures inside `class` are reported as known finding `kf`
 func (e *Exec) assertK(id string, ok *Term, class *Term, kf string, what string) {
+	if e.local != nil {
+		panic(localFail{"assertion in summarised function"})
+	}
 	st := e.site(id)
 	st.Reached++
 	if ok.konst && ok.c == 1 {
@@ -381,6 +401,10 @@ func (e *Exec) runPath(prefix []uint64, fn *ssa.Function) (out pathOutcome) {
 	e.initFrames = map[*ssa.Package]*frame{}
 	e.initRan = map[*ssa.Function]bool{}
 	e.effects = map[string]Value{}
+	e.local = nil
+	if e.sumCache == nil {
+		e.sumCache = map[*ssa.Function]bool{}
+	}
 	e.nameCtr, e.freshCtr, e.cellCtr, e.arrCtr = 0, 0, 0, 0
 	e.curFrame = nil
 	e.depth = 0
